@@ -35,6 +35,11 @@ def extract_valid_dfa(F, R):
     if len(nxt) != 1:
         raise AnchorLost('is_valid: iterator next() (%d)' % len(nxt))
     nbi, nt = nxt[0]
+    # the automaton runs over the argument itself: nothing (strip_suffix, trim, a sub-slice) shortens or changes the string first
+    og_ = Origin(b, transparent=re.compile(TRANSPARENT_CALLS.pattern[:-2] + r'|bytes|as_bytes|iter|into_iter|chars|copied)$')).of_operand(nt['args'][0])
+    pre = sorted({l[1].split('::')[-1] for l in og_ if l[0] == 'call' and not re.search(r'::(bytes|as_bytes|iter|into_iter|chars|copied|deref|as_ref|as_str)$', l[1] or '')})
+    R.ob('C18.valid-dfa', 'is_valid|scans-the-whole-argument', any(l[0] == 'arg' and l[1] == 1 for l in og_) and not pre,
+         'the byte scan does not run over the argument itself (%s is applied first): the part cut off is accepted unchecked' % (pre or 'another value'), b.loc(nbi))
     r = discr_switch_after_call(b, nbi)
     if not r:
         raise AnchorLost('is_valid: match on next()')
@@ -673,6 +678,73 @@ def parse_table(F, R):
             R.ob('C18.parse-table', 'level(%r at %s)' % (text, 'index 0' if idx == 0 else 'index>0' if idx == 1 else 'index>1'), got == {want},
                  'the parser classifies level text %r at position %d as %s, MQTT 4.7 / the string validator require %s' % (text, idx, sorted(got), want), cls.loc(0))
     R.floor('C18.parse-table', 'classifier cases', n, 51)
+    # a second place that builds levels without going through the splitter (a "single level" shortcut in try_from itself while
+    # the per-level classifier is a closure): it sees the whole input as the level at position 0 and must classify it the same way
+    if cls is not root:
+        rp = [p for p in SymEx(root, F, loop_visits=0).run() if p.end[0] == 'return']
+        def built_root(p):
+            res = None
+            for bi in p.blocks:
+                for st in root.blocks[bi]['stmts']:
+                    if st['k'] == 'assign' and st['rv']['k'] == 'agg' and st['rv'].get('agg') == 'adt':
+                        if st['rv'].get('adt') == LEVEL:
+                            res = st['rv']['variant']
+                        elif st['rv'].get('adt') == 'topic::TopicFilterError' and st['rv'].get('variant') == 'InvalidLevel':
+                            res = 'Err'
+            return res
+        short = [p for p in rp if built_root(p) is not None and not any(re.search(r'<impl str>::split$', nm_) for nm_, a_, b_ in p.calls)]
+        if short:
+            def ev2(t, env):
+                # tests on the whole input ARE tests on the level here
+                k = t[0]
+                if k == 'const':
+                    return t[1]
+                if k == 'un' and t[1] == 'Not':
+                    return int(not ev2(t[2], env))
+                if k == 'call':
+                    base = t[1]
+                    mm = re.search(r'PartialEq.*::(eq|ne)$', base)
+                    if mm and len(t[2]) == 2:
+                        lit = unq(_strip_refs(t[2][1])) if unq(_strip_refs(t[2][1])) is not None else unq(_strip_refs(t[2][0]))
+                        if lit is None:
+                            raise Unev(term_str_v(t))
+                        return int((env['text'] == lit) == (mm.group(1) == 'eq'))
+                    if base.endswith('<impl str>::contains'):
+                        pat = t[2][1]
+                        if pat[0] == 'array':
+                            return int(any(chr(x[1]) in env['text'] for x in pat[1] if x[0] == 'const'))
+                        if pat[0] == 'const':
+                            return int(chr(pat[1]) in env['text'])
+                        if unq(pat) is not None:
+                            return int(unq(pat) in env['text'])
+                    if base.endswith('topic::is_system'):
+                        return int(env['text'].startswith('$'))
+                    if base.endswith('<impl str>::is_empty') or base.endswith('::is_empty'):
+                        return int(env['text'] == '')
+                    if base.endswith('<impl str>::starts_with') and t[2][1][0] == 'const':
+                        return int(env['text'].startswith(chr(t[2][1][1])))
+                raise Unev(term_str_v(t))
+            m2 = 0
+            for text in [x for x in samples if '/' not in x and x != '']:
+                want = 'SingleWildcard' if text == '+' else 'MultiWildcard' if text == '#' else 'Err' if ('+' in text or '#' in text) else 'System' if text.startswith('$') else 'Normal'
+                got = set()
+                for p in short:
+                    ok = True
+                    for t, c in p.conds:
+                        try:
+                            v = ev2(t, {'text': text})
+                        except Unev:
+                            continue
+                        if (c[0] == 'eq' and v != c[1]) or (c[0] == 'ne' and v in c[1]):
+                            ok = False
+                            break
+                    if ok:
+                        got.add(built_root(p))
+                m2 += 1
+                if got:
+                    R.ob('C18.parse-table', 'single-level shortcut|level(%r)' % text, got == {want},
+                         'a shortcut of the parser that does not split the input classifies the one-level filter %r as %s; the per-level classifier (and 4.7) require %s' % (text, sorted(got), want), root.loc(0))
+            R.counts['C18.parse-table:shortcut cases'] = m2
     # wiring of the whole conversion: empty input refused, levels are the '/'-separated pieces numbered from 0, structural validation last
     calls = {bi: callee_name(t) or '' for bi, t in root.calls()}
     split = [(bi, t) for bi, t in root.calls() if re.search(r'<impl str>::split$', callee_name(t) or '')]
